@@ -420,3 +420,55 @@ M("C10-benign-swap-loops", "C10", "src/cppparser/cppStructType.cxx",
   "    if (destructor->_vis > min_vis) {\n      // Yes, but it's inaccessible.\n      return false;\n    }\n\n    if (destructor->_storage_class & CPPInstance::SC_deleted) {\n      // Yes, but it's explicitly been deleted.\n      return false;\n    }\n",
   "    if (destructor->_storage_class & CPPInstance::SC_deleted) {\n      // Yes, but it's explicitly been deleted.\n      return false;\n    }\n\n    if (!(destructor->_vis <= min_vis)) {\n      // Yes, but it's inaccessible.\n      return false;\n    }\n",
   benign=True)
+
+# ---------------------------------------------------------------- C07
+M("C07-minus-operands-swapped", "C07", "src/cppparser/cppBison.yxx",
+  "        | const_expr '-' const_expr\n{\n  $$ = new CPPExpression('-', $1, $3);", "        | const_expr '-' const_expr\n{\n  $$ = new CPPExpression('-', $3, $1);",
+  expect="R07.1|const_expr|binary|const_expr_'-'_const_expr")
+M("C07-lshift-builds-rshift", "C07", "src/cppparser/cppBison.yxx",
+  "        | const_expr LSHIFT const_expr\n{\n  $$ = new CPPExpression(LSHIFT, $1, $3);", "        | const_expr LSHIFT const_expr\n{\n  $$ = new CPPExpression(RSHIFT, $1, $3);",
+  expect="R07.1|const_expr|binary|const_expr_LSHIFT_const_expr")
+M("C07-prec-plus-below-times", "C07", "src/cppparser/cppBison.yxx",
+  "%left '+' '-'\n%left '*' '/' '%'", "%left '*' '/' '%'\n%left '+' '-'",
+  expect="R07.2|order|")
+M("C07-ternary-left-assoc", "C07", "src/cppparser/cppBison.yxx",
+  "%right '?'", "%left '?'",
+  expect="R07.2|assoc|'?'")
+M("C07-eval-minus-computes-plus", "C07", "src/cppparser/cppExpression.cxx",
+  "        return Result(r1.as_integer() - r2.as_integer());", "        return Result(r1.as_integer() + r2.as_integer());",
+  expect="R07.3|evaluate|'-'")
+M("C07-eval-less-swapped", "C07", "src/cppparser/cppExpression.cxx",
+  "        return Result(r1.as_integer() < r2.as_integer());", "        return Result(r2.as_integer() < r1.as_integer());",
+  expect="R07.3|evaluate|'<'")
+M("C07-eval-real-branch-int", "C07", "src/cppparser/cppExpression.cxx",
+  "        return Result(r1.as_real() * r2.as_real());", "        return Result(r1.as_integer() * r2.as_integer());",
+  expect="R07.3|evaluate|'*'")
+M("C07-delete-case-lshift", "C07", "src/cppparser/cppExpression.cxx",
+  "    case LSHIFT:\n      return Result(r1.as_integer() << r2.as_integer());\n\n", "",
+  expect="R07.4|evaluate|case|LSHIFT")
+M("C07-oror-returns-operand", "C07", "src/cppparser/cppExpression.cxx",
+  "      if (r1.as_boolean()) {\n        return Result(true);\n      } else if (r2._type == RT_error) {", "      if (r1.as_boolean()) {\n        return r1;\n      } else if (r2._type == RT_error) {",
+  expect="R07.3|evaluate|OROR")
+M("C07-drop-zero-test", "C07", "src/cppparser/cppExpression.cxx",
+  "      if (r2.as_integer() == 0 ||\n          (r2.as_integer() == -1 && r1.as_integer() == INT_MIN)) {\n        return Result();\n      }\n      return Result(r1.as_integer() % r2.as_integer());",
+  "      return Result(r1.as_integer() % r2.as_integer());",
+  expect="R07.5|evaluate|%|zero-divisor")
+M("C07-enum-error-not-checked", "C07", "src/interrogate/interrogateBuilder.cxx",
+  "      if (result._type == CPPExpression::RT_error) {\n        nout << \"enum value \";", "      if (false) {\n        nout << \"enum value \";",
+  expect="R07.6|define_enum_type|as_integer-under-type-test")
+M("C07-enum-double-increment", "C07", "src/interrogate/interrogateBuilder.cxx",
+  "    itype._enum_values.push_back(evalue);\n\n    next_value++;", "    itype._enum_values.push_back(evalue);\n\n    next_value++;\n    next_value++;",
+  expect="R07.6|define_enum_type|implicit-increment")
+M("C07-new-operator-without-case", "C07", "src/cppparser/cppBison.yxx",
+  "        | const_expr POINTSAT const_expr\n{\n  $$ = new CPPExpression(POINTSAT, $1, $3);", "        | const_expr POINTSAT const_expr\n{\n  $$ = new CPPExpression(POINTSAT_STAR, $1, $3);",
+  expect="R07.4|evaluate|case|POINTSAT_STAR")
+M("C07-benign-locals", "C07", "src/cppparser/cppExpression.cxx",
+  "    case '|':\n      return Result(r1.as_integer() | r2.as_integer());", "    case '|':\n      {\n        return Result((r1.as_integer()) | (r2.as_integer()));\n      }",
+  benign=True)
+M("C07-benign-reorder-prec-line", "C07", "src/cppparser/cppBison.yxx",
+  "%left LECOMPARE GECOMPARE '<' '>'", "%left '<' '>' LECOMPARE GECOMPARE",
+  benign=True)
+M("C07-benign-zero-guard-form", "C07", "src/cppparser/cppExpression.cxx",
+  "      if (r2.as_integer() == 0 ||\n          (r2.as_integer() == -1 && r1.as_integer() == INT_MIN)) {\n        return Result();\n      }\n      return Result(r1.as_integer() % r2.as_integer());",
+  "      if (r2.as_integer() == 0) {\n        return Result();\n      }\n      if (r2.as_integer() == -1 && r1.as_integer() == INT_MIN) {\n        return Result();\n      }\n      return Result(r1.as_integer() % r2.as_integer());",
+  benign=True)
